@@ -800,6 +800,78 @@ Proof.
   constructor; [destruct (in_dec view_opt_eq_dec a l); [discriminate | assumption] | auto].
 Qed.
 
+(* ---------- sameness up to the order of the partitions (used by the OBSERVATION at the end) ---------- *)
+
+Definition partition_eq_dec : forall a b : partition, {a = b} + {a <> b} := list_eq_dec node_eq_dec.
+
+(* two options describe the same view: same leader, same partitions up to their order
+   (partitions are kept sorted, see [wf_view], so equal sets are equal lists) *)
+Definition view_equiv (a b : view_opt) : Prop := fst a = fst b /\ Permutation (snd a) (snd b).
+
+Definition perm_b (a b : list partition) : bool :=
+  forallb (fun p => count_occ partition_eq_dec a p =? count_occ partition_eq_dec b p) (a ++ b).
+
+Lemma perm_b_complete a b : Permutation a b -> perm_b a b = true.
+Proof.
+  intros H. unfold perm_b. apply forallb_forall. intros p _. apply Nat.eqb_eq.
+  apply (proj1 (Permutation_count_occ partition_eq_dec a b) H).
+Qed.
+
+Definition view_equiv_b (a b : view_opt) : bool := (fst a =? fst b)%N && perm_b (snd a) (snd b).
+
+Lemma view_equiv_b_complete a b : view_equiv a b -> view_equiv_b a b = true.
+Proof.
+  intros [H1 H2]. unfold view_equiv_b. rewrite H1, N.eqb_refl, (perm_b_complete _ _ H2). reflexivity.
+Qed.
+
+Fixpoint pairwise_b {X} (r : X -> X -> bool) (l : list X) : bool :=
+  match l with
+  | [] => true
+  | x :: t => forallb (fun y => negb (r x y)) t && pairwise_b r t
+  end.
+
+Lemma pairwise_b_reflect l :
+  pairwise_b view_equiv_b l = true -> ForallOrdPairs (fun a b => ~ view_equiv a b) l.
+Proof.
+  induction l as [|x t IH]; simpl; [constructor|].
+  rewrite andb_true_iff, forallb_forall. intros [H1 H2]. constructor; [|auto].
+  apply Forall_forall. intros y Hy Heq. specialize (H1 y Hy).
+  rewrite (view_equiv_b_complete _ _ Heq) in H1. discriminate.
+Qed.
+
+(* pairwise distinctness under any relation lifts from the columns to their product *)
+Section Distinct.
+  Context {T : Type} (R : T -> T -> Prop).
+
+  Lemma FOP_app (Q : list T -> list T -> Prop) (l1 l2 : list (list T)) :
+    ForallOrdPairs Q l1 -> ForallOrdPairs Q l2 ->
+    (forall a b, In a l1 -> In b l2 -> Q a b) -> ForallOrdPairs Q (l1 ++ l2).
+  Proof.
+    induction 1 as [|a l Ha Hl IH]; simpl; intros H2 Hc; [assumption|].
+    constructor.
+    - apply Forall_app. split; [assumption|]. apply Forall_forall. intros b Hb. apply Hc; auto.
+    - apply IH; auto.
+  Qed.
+
+  Lemma product_distinct (cols : list (list T)) :
+    Forall (ForallOrdPairs (fun a b => ~ R a b)) cols ->
+    ForallOrdPairs (fun s t => ~ Forall2 R s t) (product cols).
+  Proof.
+    induction 1 as [|c cs Hc Hcs IH]; simpl.
+    - constructor; constructor.
+    - induction Hc as [|x c Hx Hc IHc]; simpl; [constructor|].
+      apply FOP_app.
+      + clear - IH. induction IH as [|s P Hs HP IHP]; simpl; constructor; [|assumption].
+        apply Forall_forall. intros t' Ht. apply in_map_iff in Ht. destruct Ht as [t [<- Ht]].
+        intros HF. inversion HF; subst. exact (proj1 (Forall_forall _ _) Hs t Ht H4).
+      + exact IHc.
+      + intros a b Ha Hb HF. apply in_map_iff in Ha. destruct Ha as [s [<- _]].
+        apply in_flat_map in Hb. destruct Hb as [y [Hy Hb]].
+        apply in_map_iff in Hb. destruct Hb as [t [<- _]].
+        inversion HF; subst. exact (proj1 (Forall_forall _ _) Hx y Hy H2).
+  Qed.
+End Distinct.
+
 (* the finite domain of the property: 1..5 replicas, 0..2 twin pairs, 1..3 partitions *)
 Definition bounded_settings : list (nat * nat * nat) :=
   list_prod (list_prod (seq 1 5) (seq 0 3)) (seq 1 3).
@@ -837,4 +909,30 @@ Theorem no_repetition_bounded nn nt k views e :
 Proof.
   intros Hn Ht Hk. destruct (partitions_wf_bounded nn nt k Hn Ht Hk) as [lp [H1 [_ H3]]].
   exists lp. split; [exact H1 | apply odometer_nodup; exact H3].
+Qed.
+
+(* ---------- OBSERVATION (not part of the property as decided): order of partitions ----------
+   "Without repetition" is read as "no scenario value is yielded twice" (the theorems above).
+   Up to the order of the partitions within a view -- which has no meaning for the network --
+   the generator does repeat itself when two partitions have the same size: *)
+Theorem options_repeat_up_to_partition_order :
+  exists lp i j a b,
+    option_list 3 1 2 = Ok lp /\ length lp = 12 /\ i < j /\
+    nth_error lp i = Some a /\ nth_error lp j = Some b /\ view_equiv a b.
+Proof.
+  eexists. exists 6, 10. eexists. eexists.
+  split; [vm_compute; reflexivity|]. split; [reflexivity|]. split; [lia|].
+  split; [reflexivity|]. split; [reflexivity|].
+  split; [reflexivity | apply perm_swap].
+Qed.
+
+(* whereas a generator whose options are pairwise different up to that order would yield scenarios
+   that are pairwise different up to that order, for every number of views *)
+Theorem distinct_up_to_order_lifts (lp : list view_opt) k e :
+  ForallOrdPairs (fun a b => ~ view_equiv a b) lp ->
+  ForallOrdPairs (fun s t => ~ Forall2 view_equiv s t)
+                 (scenarios (fst (run_n (length lp ^ k + e) (init lp k)))).
+Proof.
+  intros H. rewrite odometer_exact. apply product_distinct.
+  clear - H. induction k; simpl; constructor; assumption.
 Qed.
